@@ -18,8 +18,8 @@ from fractions import Fraction
 
 from .. import core
 
-KIND = {1: 'n', 2: 'x', 3: 't1', 4: 't2', 5: 't3', 6: 'e'}
-TEMPO = {'t1': 1, 't2': 16777215, 't3': 250000}
+KIND = {1: 'n', 2: 'x', 3: 't1', 4: 't2', 5: 't3', 6: 'e', 7: 't0'}
+TEMPO = {'t0': 500000, 't1': 1, 't2': 16777215, 't3': 250000}
 START = 7
 
 
@@ -252,13 +252,16 @@ INVARIANT PlayInv
 INVARIANT Emit
 CHECK_DEADLOCK FALSE
 """ % (mt, me, deltas, kinds, 'TRUE' if play else 'FALSE')
-    allk = '{"n", "t1", "t2", "t3", "x", "e"}'
+    allk = '{"n", "t0", "t1", "t2", "t3", "x", "e"}'
     if thorough:
-        plans = [(2, 2, '{0, 1, 3}', allk, False), (1, 4, '{0, 1, 3}', '{"n", "t1", "t2", "e"}', False),
+        plans = [(2, 2, '{0, 1, 3}', allk, False), (1, 4, '{0, 1, 3}', '{"n", "t0", "t1", "t2", "e"}', False),
                  (1, 3, '{0, 1, 3}', '{"n", "t1", "t2", "x", "e"}', True), (2, 2, '{0, 3}', '{"n", "t2", "x"}', True)]
     else:
-        plans = [(2, 2, '{0, 1, 3}', '{"n", "t1", "t2", "e"}', False), (1, 2, '{0, 1, 3}', allk, True),
-                 (2, 1, '{0, 3}', '{"n", "t2", "x"}', True)]
+        plans = [(2, 2, '{0, 1, 3}', '{"n", "t0", "t2", "e"}', False),
+                 (1, 3, '{1, 3}', '{"n", "t0", "t1"}', False),
+                 (1, 2, '{0, 1, 3}', allk, True),
+                 (2, 1, '{0, 3}', '{"n", "t2", "x"}', True),
+                 (1, 3, '{0, 1, 3}', '{"n"}', True)]        # three yields: drift after a slow consumer
     for mt, me, dl, kinds, play in plans:
         pr = core.ParallelReplay(ctx, worker, batch_size=1000, initializer=_init, initargs=(play,))
         res = core.run_tlc('Playback', cfg(mt, me, dl, kinds, play), on_emit=pr.push, raw_ints=True,
